@@ -26,12 +26,14 @@ vars == <<cs, pcs, k, i, q, out>>
 
 \* the case set as a predicate (TLC enumerates the components; no big set of records is built)
 InCaseSet(x) ==
-   \/ "A" \in Families /\ \E s \in SidesA, d \in 0..3, sp \in BOOLEAN : x = CaseA(s, d, sp)
+   \/ "A" \in Families /\ \E s \in SidesA, d \in FormatsA, sp \in BOOLEAN : x = CaseA(s, d, sp)
    \/ "B" \in Families /\ \E ns \in SeqsB, ts \in TSesB, p \in DelimPairs, sp \in BOOLEAN, pad \in Pads :
                                x = CaseB(ns, ts, p, sp, pad)
    \/ "C" \in Families /\ \E s \in SidesC, ts \in TSesC, lay \in LayoutsC(FALSE) : x = CaseC(s, ts, lay[1], lay[2])
    \/ "Cfull" \in Families /\ \E s \in SidesC, ts \in TSesC, lay \in LayoutsC(TRUE) : x = CaseC(s, ts, lay[1], lay[2])
    \/ "E" \in Families /\ \E ns \in SeqsE, ts \in TSesB, p \in PairsE, sp \in BOOLEAN : x = CaseE(ns, ts, p, sp)
+   \/ "F" \in Families /\ \E ts \in TSesF, sp \in BOOLEAN, pad \in Pads : \E p \in PairsF(ts) : x = CaseF(ts, p, sp, pad)
+   \/ "G" \in Families /\ \E ts \in TSesG, lay \in LayoutsC(TRUE) : x = CaseG(ts, lay)
    \/ "D" \in Families /\ \E s \in SidesD, ts \in TSesC, pad \in PadsD : x = CaseD(s, ts, pad)
 
 Pieces(text, spd, rxd) ==
@@ -84,7 +86,7 @@ Requirement == Done => IF cs.kind = "print" THEN RoundTripOK(cs.r, cs.d, out) EL
 Functional == Done => out = ParseRxn(Text, cs.spd, cs.rxd)
 \* the expectation handed to the replay is itself a reading that satisfies the requirement
 ExpectSound == Done /\ cs.kind = "print" /\ ~CaseHasTie(cs) =>
-                  \A i2 \in 1..Len(out.re) : Thousandths(out.re[i2].co) = Expect(cs).re[i2].u
-                                              /\ out.re[i2].co[2] % 1000000 = 0 /\ out.re[i2].co[3] = 0
+                  \A i2 \in 1..Len(out.re) : Millionths(out.re[i2].co) = Expect(cs).re[i2].u
+                                              /\ out.re[i2].co[2] % 1000 = 0 /\ out.re[i2].co[3] = 0
 View == <<cs, k, i, q, out>>
 =============================================================================
